@@ -23,15 +23,17 @@ import (
 
 // ConnManager represents a connection map.
 type ConnManager struct {
-	m     map[uuid.UUID]*Conn
-	mutex *sync.RWMutex
+	m       map[uuid.UUID]*Conn
+	mutex   *sync.RWMutex
+	stopped bool
 }
 
 // NewConnManager returns a connection map.
 func NewConnManager() *ConnManager {
 	return &ConnManager{
-		m:     map[uuid.UUID]*Conn{},
-		mutex: &sync.RWMutex{},
+		m:       map[uuid.UUID]*Conn{},
+		mutex:   &sync.RWMutex{},
+		stopped: false,
 	}
 }
 
@@ -41,6 +43,17 @@ func (mgr *ConnManager) AddConn(c *Conn) {
 	defer mgr.mutex.Unlock()
 	uuid := c.UUID()
 	mgr.m[uuid] = c
+}
+
+// addConnIfRunning adds the specified connection unless the manager has been stopped.
+func (mgr *ConnManager) addConnIfRunning(c *Conn) bool {
+	mgr.mutex.Lock()
+	defer mgr.mutex.Unlock()
+	if mgr.stopped {
+		return false
+	}
+	mgr.m[c.UUID()] = c
+	return true
 }
 
 // Conns returns the included connections.
@@ -72,6 +85,9 @@ func (mgr *ConnManager) RemoveConn(conn *Conn) error {
 
 // Start starts the connection manager.
 func (mgr *ConnManager) Start() error {
+	mgr.mutex.Lock()
+	defer mgr.mutex.Unlock()
+	mgr.stopped = false
 	return nil
 }
 
@@ -94,6 +110,10 @@ func (mgr *ConnManager) Close() error {
 
 // Stop closes all connections.
 func (mgr *ConnManager) Stop() error {
+	// A connection that was accepted but is not registered yet must not be served after the stop.
+	mgr.mutex.Lock()
+	mgr.stopped = true
+	mgr.mutex.Unlock()
 	if err := mgr.Close(); err != nil {
 		return err
 	}
